@@ -40,11 +40,17 @@ Inductive xans :=
 | XReadAns (recs : list pl) (t : N).
 
 (* after every op: size of the head file, bytes buffered, Group.MinIndex, Group.MaxIndex,
-   index of the first indexed file in the directory (-1: none), sizes of the indexed files *)
-Definition snap := (Z * Z * Z * Z * Z * list Z)%type.
+   index of the first indexed file in the directory (-1: none), sizes of the indexed files,
+   numbers of the indexed files (every directory entry <head>.<digits>, whatever the number of
+   digits, sorted) *)
+Definition snap := (Z * Z * Z * Z * Z * list Z * list Z)%type.
 
+(* [base], [pre]: the directory already holds the rolled files <head>.<base>, <head>.<base+1>, ...
+   before the WAL is opened for the first time ([pre] = records of each file with their
+   EndHeight tag, oldest file first; written by a real WAL and renamed) *)
 Inductive case :=
-| CWal (hl tl : Z) (ops : list xop) (answers : list xans) (snaps : list snap)
+| CWal (hl tl : Z) (base : Z) (pre : list (list (pl * option Z)))
+       (ops : list xop) (answers : list xans) (snaps : list snap)
        (final_files : list pl) (final_head : pl).
 
 (* ---------------------------------------------------------------- running the model *)
@@ -93,11 +99,12 @@ Definition ans_eqb (a : ans) (x : xans) : bool :=
 Definition snap_of (s : st) : snap :=
   (len (head s), len (buf s), gmin s, gmax s,
    match files s with [] => -1 | _ => gmax s - Z.of_nat (List.length (files s)) end,
-   map len (files s)).
+   map len (files s), disk_indices s).
 Definition snap_eqb (a b : snap) : bool :=
-  let '(h, bf, mn, mx, fi, sz) := a in
-  let '(h', bf', mn', mx', fi', sz') := b in
-  (h =? h') && (bf =? bf') && (mn =? mn') && (mx =? mx') && (fi =? fi') && list_eqb Z.eqb sz sz'.
+  let '(h, bf, mn, mx, fi, sz, ix) := a in
+  let '(h', bf', mn', mx', fi', sz', ix') := b in
+  (h =? h') && (bf =? bf') && (mn =? mn') && (mx =? mx') && (fi =? fi') && list_eqb Z.eqb sz sz'
+  && list_eqb Z.eqb ix ix'.
 
 Section Run.
 Variable eh : bytes -> option Z.
@@ -210,11 +217,12 @@ Fixpoint expected_after (h : Z) (segs : list (list bytes)) : option (list bytes)
     end
   end.
 
-Definition sizes_of (s : snap) : list Z := let '(_, _, _, _, _, sz) := s in sz.
-Definition head_of (s : snap) : Z := let '(h, _, _, _, _, _) := s in h.
-Definition buffered_of (s : snap) : Z := let '(_, b, _, _, _, _) := s in b.
-Definition max_of (s : snap) : Z := let '(_, _, _, mx, _, _) := s in mx.
-Definition first_of_snap (s : snap) : Z := let '(_, _, _, _, fi, _) := s in fi.
+Definition sizes_of (s : snap) : list Z := let '(_, _, _, _, _, sz, _) := s in sz.
+Definition head_of (s : snap) : Z := let '(h, _, _, _, _, _, _) := s in h.
+Definition buffered_of (s : snap) : Z := let '(_, b, _, _, _, _, _) := s in b.
+Definition max_of (s : snap) : Z := let '(_, _, _, mx, _, _, _) := s in mx.
+Definition first_of_snap (s : snap) : Z := let '(_, _, _, _, fi, _, _) := s in fi.
+Definition idxs_of (s : snap) : list Z := let '(_, _, _, _, _, _, ix) := s in ix.
 
 Definition zl_eqb := list_eqb Z.eqb.
 Definition nlen {A} (l : list A) : Z := Z.of_nat (List.length l).
@@ -237,14 +245,23 @@ Definition rotated (m : mon) : mon :=
   set_hpart (set_j m (m_segs m ++ [m_hs m ++ m_hu m]) [] []) None.
 
 (* clause 4 for an operation that must not remove anything: the indexed files are the previous
-   ones, possibly preceded by re-created empty files (readers), possibly followed by the
-   rotated head *)
+   ones -- same numbers, same sizes --, possibly preceded by re-created empty files (readers),
+   possibly followed by the rotated head, which gets the number MaxIndex had (a rotation that
+   renames the head onto an existing file shows up as a missing entry) *)
+Fixpoint increasing (l : list Z) : bool :=
+  match l with
+  | a :: ((b :: _) as r) => (a <? b) && increasing r
+  | _ => true
+  end.
 Definition files_kept (prev now : snap) (rotated : bool) : bool :=
   let sp := sizes_of prev ++ (if rotated then [head_of prev + buffered_of prev] else []) in
+  let ip := idxs_of prev ++ (if rotated then [max_of prev] else []) in
   let sn := sizes_of now in
   let k := (List.length sn - List.length sp)%nat in
   Nat.leb (List.length sp) (List.length sn)
-  && forallb (Z.eqb 0) (firstn k sn) && zl_eqb (skipn k sn) sp.
+  && forallb (Z.eqb 0) (firstn k sn) && zl_eqb (skipn k sn) sp
+  && zl_eqb (skipn k (idxs_of now)) ip && increasing (idxs_of now)
+  && Nat.eqb (List.length (idxs_of now)) (List.length sn).
 
 Definition mon_step (m : mon) (o : xop) (a : xans) (sn : snap) : mon :=
   let prev := m_prev m in
@@ -271,6 +288,7 @@ Definition mon_step (m : mon) (o : xop) (a : xans) (sn : snap) : mon :=
     let ok := Nat.leb (List.length (sizes_of sn)) (List.length (sizes_of prev))
               && (Z.of_nat n <=? autofile_max_files_to_remove)
               && zl_eqb (sizes_of sn) (skipn n (sizes_of prev))
+              && zl_eqb (idxs_of sn) (skipn n (idxs_of prev))
               && (head_of sn =? head_of prev) && (buffered_of sn =? buffered_of prev) in
     add_verd (set_j m (skipn n (m_segs m)) (m_hs m) (m_hu m)) [viol ok 4] sn
   | XRestart keep h cu d0a d0b, XRestarted status repaired replayed all t =>
@@ -355,17 +373,22 @@ Fixpoint cmp_snaps (ms xs : list snap) : list verdict :=
   | _, _ => [V_mismatch 10]
   end.
 
-Definition snap0 : snap := (0, 0, 0, 0, -1, []).
+(* the directory before the first open: the pre-existing rolled files, no head *)
+Definition snap0 (base : Z) (pre : list (list bytes)) : snap :=
+  (0, 0, 0, 0, match pre with [] => -1 | _ => base end,
+   map (fun rs => fold_right (fun d a => frame_size d + a) 0 rs) pre,
+   map (fun k => base + Z.of_nat k) (seq 0 (List.length pre))).
 
 Definition check (c : case) : verdict :=
   match c with
-  | CWal hl tl ops answers snaps ffiles fhead =>
-    let tab := tags_of ops in
-    let m := mon_run tab {| m_segs := []; m_hs := []; m_hu := []; m_hpart := None;
+  | CWal hl tl base pre ops answers snaps ffiles fhead =>
+    let prer := map (map (fun x : pl * option Z => unpl (fst x))) pre in
+    let tab := flat_map (map (fun x : pl * option Z => (unpl (fst x), snd x))) pre ++ tags_of ops in
+    let m := mon_run tab {| m_segs := prer; m_hs := []; m_hu := []; m_hpart := None;
                             m_flipped := false;
-                            m_tainted := false; m_prev := snap0; m_verd := [] |}
+                            m_tainted := false; m_prev := snap0 base prer; m_verd := [] |}
                      ops answers snaps in
-    let '(s, mans, msnaps) := mrun (lookup tab) (init hl tl) (map mop ops) in
+    let '(s, mans, msnaps) := mrun (lookup tab) (init_at crc32c_be hl tl base prer) (map mop ops) in
     first_of (m_verd m ++
               cmp_answers mans answers ++ cmp_snaps msnaps snaps ++
               [ mism (list_eqb bytes_eqb (files s) (map unpl ffiles)) 17;
